@@ -13,20 +13,20 @@ T1C = {
     "C02": "the eight Start/EndOverhangPremise methods, OverhangResolver.add_overhang_premise, OverhangResolver.make_fixes, a whole resolver round (shared OverlapResults as store indices)",
     "C03": "FastaStream.write_scaffold",
     "C04": "index_fasta_file (whole body with its two closures; = the model's indexer for the lines of every file; hence the SOURCE's indexer returns the faidx quintuples and the tiling assembly)",
-    "C05": "format_tpf, parse_agp, parse_tpf (+ the round trips of the SOURCE's writer and parser)",
+    "C05": "format_tpf, parse_agp, parse_tpf (+ the round trips of the SOURCE's writer and parser); constructor guards: Gap / Fragment / FastaInfo __init__ and their signature defaults build the model literals",
     "C06": "format_agp (+ validity of what the SOURCE writes)",
     "C07": "Scaffold.append_scaffold, BuildAssembly.input_predecessor, BuildAssembly.gaps_before_leftover, and — when Properties/C07ImpFuse.lean is registered — scaffolds_fused_by_name",
     "C09": "ScaffoldNamer.{get_set_haplotype, haplotig_name, unloc_name, haplotype_from_first_row_name, make_scaffold_name, label_scaffold, rename_by_size} (refinement through `absNamer`), name_assemblies and merge_assemblies",
-    "C10": "phase 2 of the remap: ChrGroup (all 8 methods), ChrNamer (add_scaffold, add_chr_prefix, new_group, check_groups, build_groups, name_chromosomes), BuildAssembly.assemblies_with_scaffolds_fused (registered files: C10ImpGroup, C10ImpBuild, C10ImpName, C10ImpFused as they are proved), AssemblyStats.chromosome_name_csv (= the model's chromosomeNameCsv, rendered; never raises)",
+    "C10": "phase 2 of the remap: ChrGroup (all 8 methods), ChrNamer (add_scaffold, add_chr_prefix, new_group, check_groups, build_groups, name_chromosomes), BuildAssembly.assemblies_with_scaffolds_fused (C10ImpGroup, C10ImpBuild, C10ImpName, C10ImpFused: the SOURCE's phase 2 = the model's assembliesFused, and phase 1 + phase 2 = the model's remap — `source_remap_is_model`), AssemblyStats.chromosome_name_csv (= the model's chromosomeNameCsv, rendered; never raises)",
     "C11": "AssemblyStats.make_stats (counts unconditionally, per-assembly records for distinct keys), Assembly.fragment_junction_set, Scaffold.fragment_junction_set and Assembly.fragment_junctions_by_asm_prefix (iterators; with them make_stats is tied with NO oracle left: C11ImpJunctions)",
     "C12": "IndexedAssembly.find_overlaps (whole body: the SOURCE's lookup = the brute-force scan), IndexedAssembly.add_scaffold",
     "C13": "FastaIndex.get_gap_iter / fwd_chunks / rev_chunks / get_info / get_sequence_iter, reverse_complement, revcomp_bytes_io; write_scaffold WITH the source's own iterators writes the model's bytes",
-    "C14": "OverlapResult.to_scaffold, Fragment.reverse",
+    "C14": "OverlapResult.to_scaffold, Fragment.reverse, FastaIndex.sequence_bytes (binary handle: exact tie; = the model's sequenceBytes when rpl ≤ mll)",
     "C15": "FastaIndex.check_for_index_files (file system as oracles: accepts exactly when both cache files exist and are strictly newer)",
     "C16": "get_output_filehandle (opens once, with the model's mode; exit status 1 exactly when the model's openOutput fails)",
-    "C17": "Scaffold.fragment_tags, Scaffold.length, Scaffold.fragments_length",
+    "C17": "Scaffold.fragment_tags, Scaffold.length, Scaffold.fragments_length, FastaInfo.fai_row and FastaIndex.load_index (the SOURCE's .fai writer rows read back by the SOURCE's loader give the index: warm = cold at source level)",
     "C18": "discard_start, discard_end, overhang_if_start_removed, overhang_if_end_removed, trim_large_overhangs, fragment_start_if_trimmed, trim_fragment",
-    "C20": "Assembly.name_natural_key (= naturalKey, flattened; total), Assembly.smart_sort_scaffolds (= smartSort: same stable order; the TypeError a mixed int/str comparison would raise is proved unreachable for natural keys)",
+    "C20": "Assembly.name_natural_key (= naturalKey, flattened; total), Assembly.smart_sort_scaffolds (= smartSort: same stable order; the TypeError a mixed int/str comparison would raise is proved unreachable for natural keys); constructor guard: Scaffold.__init__ with the defaults of its signature builds the model literal (a never-ranked scaffold has the integer rank 0)",
     "C19": "Assembly.all_vs_all_fragments with find_overlapping_fragments' callback inlined (the SOURCE's scan satisfies the C19 specification)",
 }
 
@@ -48,8 +48,8 @@ for p in props:
             "level_claimed": {"category": getattr(mod, "LEVEL", "proof"), "text": getattr(mod, "LEVEL_TEXT", getattr(mod, "EXPLANATION", "")),
                               "design_ref": f"DESIGN.md §5 {pid}"},
             "level_note": getattr(mod, "LEVEL_NOTE", "; ".join(getattr(mod, "TRUSTED", [])))
-                          + ((" NEWEST (T1c, DESIGN 12.12): translated whole from the current source on every run and PROVED equal to the model function: " + T1C[pid]
-                              + f" (Properties/{pid}Imp*.lean; translator harness/translate_imp.py, semantics Model/PyRt.lean, both in the trusted base)") if pid in T1C and list((VERIF / "lean" / "AgpTpf" / "Properties").glob(f"{pid}Imp*.lean")) else ""),
+                          + ((" NEWEST (T1c, DESIGN 12.12–12.14): translated whole from the current source on every run and PROVED equal to the model function: " + T1C[pid]
+                              + f" (Properties/{pid}Imp*.lean; translator harness/translate_imp.py, semantics Model/PyRt*.lean, all in the trusted base)") if pid in T1C and list((VERIF / "lean" / "AgpTpf" / "Properties").glob(f"{pid}Imp*.lean")) else ""),
             "technique": getattr(mod, "TECHNIQUE", "Lean 4 theorems over a hand-written model; the model is tied to the source on every run by regenerated constants (T1), by translation of source functions into Lean with PROVED equality to the model (T1b straight-line kernels, T1c whole method bodies with loops and mutation), and by differential correspondence with the real code + independent oracles (failing-input search)"),
         })
     else:
